@@ -67,7 +67,7 @@ BYTEVECS = [[], [0], [255], [0, 127, 128], [1, 2, 3, 200], [1, 53], [255, 49, 55
 TOKENS = [
     # digit-initial
     "1+", "1-", "1/2", "1.5.6", "0x10", "12ab", "1e3", "1e3-abc", "1x", "55033ea4-52b5", "1.5", "42", "007", "1e21", "5e-324",
-    "1E3", "1.5e+3", "1a:", "1.", "9223372036854775808", "1e400",
+    "1E3", "1.5e+3", "1a:", "1.", "9223372036854775808", "1e400", "-1e400", "-2e308", "-1.8e308", "1.7976931348623157e308", "-1.7976931348623157e308",
     # sign-initial and dots
     "+5", "-.5", "+.a", "-", "+", "-5x", "+1/2", "-1.5e2", "-0", "+a", "-a", "->", "...", "..", ".a", ".5", "+inf.0", "-i",
     # keywords
@@ -110,7 +110,14 @@ DATUMS = [
     ("e", '"\\x41"'), ("e", '"\\101"'), ("e", '"\\u0041"'), ("e", '"\\U0001F600"'), ("e", '"\\N{U+41}"'), ("e", '"\\e\\s\\d"'),
     ("e", '"a\\ b"'), ("e", '"λ\\u03bb"'), ("e", '"\\001\\377"'), ("e", '"\\x41\\ 1"'), ("e", "[1 2]"), ("e", "[a [b]]"),
     ("e", "(nil t)"), ("e", "1+"), ("e", "55033ea4-52b5"),
+    # the last code point below a boundary followed by one more digit (prefixes end on a surrogate / the maximum)
+    ("d", "#\\xDFFF0"), ("e", "?\\xDFFF0"), ("d", "#\\xD7FFF"), ("d", "#\\x10FFFF"), ("d", '"\\xDFFF0;"'), ("e", '"\\uD7FF"'),
 ]
+# every printable ASCII character as a character literal of each syntax (plain and, for Emacs Lisp, escaped)
+BS = "\u00a7"       # the marker main() turns into one backslash
+DATUMS += [("d", "#" + BS + (BS if c == 92 else chr(c))) for c in range(33, 127)]
+DATUMS += [("e", "?" + chr(c)) for c in range(33, 127) if chr(c) not in "()[];\\"]
+DATUMS += [("e", "?\\" + chr(c)) for c in range(33, 127) if chr(c) in "()[];\"'`#.,|^!$%&*+-/:<=>?@_~{}"]
 
 # contexts: @ is replaced by the token
 CONTEXTS = ["@", "(@ x)", "(x . @)", "#(x @)", "(x @)", "[x @]", "#(@)"]
